@@ -13,16 +13,16 @@ ASSUMPTIONS = ["rows where the neighbour reports no incoming extension are outsi
 
 def run(F, rep):
     rep.engines.update(["E2-DT", "E2-BV", "E1"])
-    dt_tables.hash_step_table(F, rep, "C02.1")
-    dt_tables.graph_step_table(F, rep, "C02.2")
-    dt_compress.extender_table(F, rep, "C02.3", graph_route=False)
-    dt_compress.extender_table(F, rep, "C02.3", graph_route=True)
-    dt_compress.hash_builder_table(F, rep, "C02.3")
-    dt_compress.graph_builder_table(F, rep, "C02.3")
-    dt_compress.hash_driver_table(F, rep, "C02.3")
-    dt_compress.graph_driver_table(F, rep, "C02.3")
+    rep.run(dt_tables.hash_step_table, F, rep, "C02.1")
+    rep.run(dt_tables.graph_step_table, F, rep, "C02.2")
+    rep.run(dt_compress.extender_table, F, rep, "C02.3", graph_route=False)
+    rep.run(dt_compress.extender_table, F, rep, "C02.3", graph_route=True)
+    rep.run(dt_compress.hash_builder_table, F, rep, "C02.3")
+    rep.run(dt_compress.graph_builder_table, F, rep, "C02.3")
+    rep.run(dt_compress.hash_driver_table, F, rep, "C02.3")
+    rep.run(dt_compress.graph_driver_table, F, rep, "C02.3")
     # the pruning the graph route relies on before it walks (a pruned real link hides a branch)
-    dt_graph.get_valid_exts_table(F, rep, "C02.4")
-    dt_graph.fix_exts_table(F, rep, "C02.4")
-    common.run_kmer_lemmas(F, rep, {"canon"})
-    lemmas.exts_lemmas(F, rep)
+    rep.run(dt_graph.get_valid_exts_table, F, rep, "C02.4")
+    rep.run(dt_graph.fix_exts_table, F, rep, "C02.4")
+    rep.run(common.run_kmer_lemmas, F, rep, {"canon"})
+    rep.run(lemmas.exts_lemmas, F, rep)
